@@ -879,6 +879,24 @@ hwloc__xml_import_object(hwloc_topology_t topology,
     goto error_with_object;
   }
 
+  /* complete sets may be missing in hand-written files, the core and the code below need them */
+  if (obj->cpuset && !obj->complete_cpuset) {
+    obj->complete_cpuset = hwloc_bitmap_dup(obj->cpuset);
+    if (!obj->complete_cpuset)
+      goto error_with_object;
+  }
+  if (obj->nodeset && !obj->complete_nodeset) {
+    obj->complete_nodeset = hwloc_bitmap_dup(obj->nodeset);
+    if (!obj->complete_nodeset)
+      goto error_with_object;
+  }
+  if ((obj->complete_cpuset || obj->complete_nodeset) && hwloc__obj_type_is_special(obj->type)) {
+    if (hwloc__xml_verbose())
+      fprintf(stderr, "%s: invalid special object %s with complete cpuset or nodeset\n",
+	      state->global->msgprefix, hwloc_obj_type_string(obj->type));
+    goto error_with_object;
+  }
+
   /* check PUs */
   if (obj->type == HWLOC_OBJ_PU) {
     /* obj->cpuset!=NULL was checked above */
